@@ -1,5 +1,6 @@
 import FranzVerif.Model.C32
 import FranzVerif.Proof.C32
+import FranzVerif.Proof.C32RC
 import FranzVerif.Props.C29
 /-! C32 — kfake behaves like a Kafka partition log: property theorems over ALL operation histories
 of the model (`Model.C32.run` from `init np`, any list of operations, any length). -/
@@ -23,14 +24,8 @@ theorem produce_appends_at_hwm (s : State) (v12 : Bool) (k epoch seq n nbytes : 
 
 /-- **Every history**: the partition invariant holds in every state reachable by any operations. -/
 theorem all_histories_inv (np : Nat) (ops : List Op) (hv : ∀ o ∈ ops, Op.valid o) :
-    AllInv (run (init np) ops) := by
-  suffices ∀ s, AllInv s → AllInv (run s ops) from this _ (init_inv np)
-  induction ops with
-  | nil => intro s h; exact h
-  | cons o os ih =>
-    intro s h
-    simp only [run]
-    exact ih (fun o' ho' => hv o' (by simp [ho'])) _ (step_inv s o (hv o (by simp)) h)
+    ∀ pd ∈ (run (init np) ops).parts, PInv pd :=
+  run_inv PInv pres_pinv ops hv _ (init_inv PInv pinv_init np)
 
 /-- LSO ≤ HWM after every history. -/
 theorem lso_le_hwm (np : Nat) (ops : List Op) (hv : ∀ o ∈ ops, Op.valid o) :
@@ -103,26 +98,104 @@ theorem fetch_progress (rc : Bool) (lso mb pm : Int) (m : Batch) (r : List Batch
     (h : ¬ (rc = true ∧ m.first ≥ lso)) : ∃ t, (walk rc lso mb pm (m :: r) 0 nb 0).1 = m :: t :=
   walk_first rc lso mb pm m r nb h
 
-/- Full statement (not proved; checked on every differential run by the Spec clause `read-committed`, and by
-`decide`d instances below):
-   ∀ reachable pd, ∀ o mb pm nb ad, searchOffset pd o = .found bs →
-     let out := (walk true pd.lso mb pm bs 0 nb ad).1
-     out ≠ [] → clientView (abortedFor pd.aborted o out) out = committedData out (bs.drop out.length)
-What is missing is the invariant tying `pd.aborted` to the abort markers of the log (one entry per abort
-marker, carrying the first offset of that producer's batches since its previous marker) and its preservation
-by `endTxPart` / `trimLeft`. -/
-/-- read_committed content on a concrete interleaving of two aborted and one committed transaction,
-for every fetch offset 0..12 and the byte limits 1, 100, 200, 400 and unlimited (an instance, not the general theorem). -/
-theorem read_committed_exact_partial :
+/-- the partition invariant together with the invariant tying the aborted index to the log's abort markers
+(`Proof.C32.RInv`: one entry per abort marker that still has data of its transaction in the log, carrying a
+first offset at or below that data and after the producer's previous marker; open transactional data is
+tracked in `uncommittedPIDs`) is preserved by every log operation. -/
+theorem pres_full : Pres (fun pd => PInv pd ∧ RInv pd) :=
+  ⟨fun pd b t hn hc ht h => ⟨pinv_push pd b t (by omega) h.1, rinv_push pd b t hn hc ht h.2⟩,
+   fun pd k e c h => ⟨pinv_endTx pd k e c h.1, rinv_endTx pd k e c h.2⟩,
+   fun pd off h => ⟨pinv_delete pd off h.1, rinv_delete pd off h.2⟩⟩
+
+theorem all_histories_full (np : Nat) (ops : List Op) (hv : ∀ o ∈ ops, Op.valid o) :
+    ∀ pd ∈ (run (init np) ops).parts, PInv pd ∧ RInv pd :=
+  run_inv _ pres_full ops hv _ (init_inv _ ⟨pinv_init, rinv_init⟩ np)
+
+/-- **read_committed exactness, every history.** In every reachable state, for every partition, fetch offset and
+byte limits (request-level, partition-level, whatever was already added for earlier partitions): what the
+consumer keeps of the returned batches after Kafka's aborted-transaction rule (with the `AbortedTransactions`
+kfake lists) is exactly the committed data among them — non-transactional batches and batches whose producer's
+next marker in the log is a commit; nothing of an aborted or still open transaction, and nothing dropped. -/
+theorem read_committed_exact (np : Nat) (ops : List Op) (hv : ∀ o ∈ ops, Op.valid o) :
+    ∀ pd ∈ (run (init np) ops).parts, ∀ (o mb pm nb : Int) (ad : Nat) (bs : List Batch), searchOffset pd o = .found bs →
+      clientView (abortedFor pd.aborted o (walk true pd.lso mb pm bs 0 nb ad).1) (walk true pd.lso mb pm bs 0 nb ad).1
+        = committedData (walk true pd.lso mb pm bs 0 nb ad).1 (bs.drop (walk true pd.lso mb pm bs 0 nb ad).1.length) := by
+  intro pd hpd o mb pm nb ad bs h
+  obtain ⟨hP, hR⟩ := all_histories_full np ops hv pd hpd
+  exact rc_exact_part pd hP hR o mb pm nb ad bs h
+
+/-- … and for the response as `handleFetch` builds it: every partition answered without error by a
+read_committed fetch carries a run `r.batches` of that partition's log (`pre ++ r.batches ++ rest`) whose
+consumer view is the committed data of the run. -/
+theorem fetch_read_committed_exact (parts : List Part) (hinv : ∀ pd ∈ parts, PInv pd ∧ RInv pd) (mb unk : Int) (lead : Nat → Bool) (reqs : List FReq)
+    (nb : Int) (ad : Nat) :
+    ∀ r ∈ fetchLoop parts true mb unk lead reqs nb ad, r.code = 0 → unk ≠ 0 →
+      ∃ pd pre rest, parts[r.p]? = some pd ∧ pd.batches = pre ++ r.batches ++ rest ∧
+        clientView r.aborted r.batches = committedData r.batches rest := by
+  induction reqs generalizing nb ad with
+  | nil => simp [fetchLoop]
+  | cons fp rs ih =>
+    intro r hr hc hunk
+    unfold fetchLoop at hr
+    split at hr
+    · simp only [List.mem_cons] at hr
+      rcases hr with rfl | hr
+      · exact absurd hc hunk
+      · exact ih _ _ r hr hc hunk
+    · rename_i pd hpd
+      have hfound : ∀ bs, searchOffset pd fp.off = .found bs →
+          ∃ pre rest, pd.batches = pre ++ (walk true pd.lso mb fp.pmax bs 0 nb ad).1 ++ rest ∧
+            clientView (abortedFor pd.aborted fp.off (walk true pd.lso mb fp.pmax bs 0 nb ad).1) (walk true pd.lso mb fp.pmax bs 0 nb ad).1
+              = committedData (walk true pd.lso mb fp.pmax bs 0 nb ad).1 rest := by
+        intro bs hs
+        obtain ⟨hP, hR⟩ := hinv pd (List.mem_of_getElem? hpd)
+        have hex := rc_exact_part pd hP hR fp.off mb fp.pmax nb ad bs hs
+        obtain ⟨⟨pre, hpre, _⟩, ⟨rest, hrest⟩⟩ := fetch_returns_log_run pd fp.off true mb fp.pmax nb ad bs hs
+        refine ⟨pre, rest, ?_, ?_⟩
+        · rw [hpre, List.append_assoc, ← hrest]
+        · have hd : bs.drop (walk true pd.lso mb fp.pmax bs 0 nb ad).1.length = rest := by
+            have h3 := congrArg (List.drop (walk true pd.lso mb fp.pmax bs 0 nb ad).1.length) hrest
+            rw [List.drop_left' rfl] at h3
+            exact h3
+          rw [hd] at hex; exact hex
+      split at hr
+      · simp only [List.mem_cons] at hr
+        rcases hr with rfl | hr
+        · simp at hc
+        · exact ih _ _ r hr hc hunk
+      split at hr
+      · simp only [List.mem_cons] at hr
+        rcases hr with rfl | hr
+        · exact ⟨pd, pd.batches, [], hpd, by simp, by simp [clientView, clientFilter, committedData]⟩
+        · exact ih _ _ r hr hc hunk
+      · simp only [List.mem_cons] at hr
+        rcases hr with rfl | hr
+        · simp at hc
+        · exact ih _ _ r hr hc hunk
+      · rename_i bs hs
+        obtain ⟨pre, rest, h1, h2⟩ := hfound bs hs
+        simp only [if_true] at hr
+        by_cases hfull : (walk true pd.lso mb fp.pmax bs 0 nb ad).2.2.2 = true
+        · rw [if_pos hfull] at hr
+          have hr' := List.mem_singleton.1 hr
+          subst hr'
+          exact ⟨pd, pre, rest, hpd, h1, h2⟩
+        · rw [if_neg hfull] at hr
+          rcases List.mem_cons.1 hr with rfl | hr
+          · exact ⟨pd, pre, rest, hpd, h1, h2⟩
+          · exact ih _ _ r hr hc hunk
+
+/-- Non-vacuity: two aborted transactions and a committed one interleaved with plain data; a read_committed
+fetch from offset 0 limited to 400 bytes returns four batches, lists both aborted transactions, and the consumer
+keeps exactly the committed producer's batch and the plain one. -/
+example :
     ((run (init 1) [.initx 0 203, .initx 1 204, .initx 2 205, .prod true 0 0 0 1 70 0 true, .prod true 1 0 0 3 100 0 true,
       .prod true 2 0 0 2 90 0 true, .prod true (-1) (-1) (-1) 2 80 0 false, .endt true 0 0 false, .prod true 1 0 3 1 75 0 true,
-      .endt true 2 0 true, .endt false 1 0 false, .prod true 0 1 0 2 85 0 true]).parts.all fun pd =>
-      (List.range 13).all fun o => [1, 100, 200, 400, 1048576].all fun mb =>
-        match searchOffset pd o with
-        | .found bs =>
-          decide (clientView (abortedFor pd.aborted o (walk true pd.lso mb 1048576 bs 0 0 0).1) (walk true pd.lso mb 1048576 bs 0 0 0).1
-            = committedData (walk true pd.lso mb 1048576 bs 0 0 0).1 (bs.drop (walk true pd.lso mb 1048576 bs 0 0 0).1.length))
-        | _ => true) = true := by
+      .endt true 2 0 true, .endt false 1 0 false]).parts.map fun pd =>
+        match searchOffset pd 0 with
+        | .found bs => ((walk true pd.lso 400 1048576 bs 0 0 0).1.length, abortedFor pd.aborted 0 (walk true pd.lso 400 1048576 bs 0 0 0).1,
+            (clientView (abortedFor pd.aborted 0 (walk true pd.lso 400 1048576 bs 0 0 0).1) (walk true pd.lso 400 1048576 bs 0 0 0).1).map (·.first))
+        | _ => (0, [], [])) = [(4, [(0, 0), (1, 1)], [4, 6])] := by
   decide
 
 /-! ### idempotent retry -/
@@ -131,7 +204,7 @@ theorem read_committed_exact_partial :
 partition, same epoch — is answered with error 0 and the offset recorded for it, and no partition log changes.
 (C29 proves that the window records exactly the last five accepted batches with their offsets.) -/
 theorem retry_gets_original_offset (s : State) (v12 : Bool) (k epoch seq n nbytes : Int) (p : Nat) (tx : Bool)
-    (pd : Part) (pr : Prod) (hpd : s.parts[p]? = some pd) (hk : 0 ≤ k) (hseq : 0 ≤ seq) (hn : 0 ≤ n)
+    (pd : Part) (pr : Prod) (hpd : s.parts[p]? = some pd) (hlead : isLeader s p = true) (hk : 0 ≤ k) (hseq : 0 ≤ seq) (hn : 0 ≤ n)
     (hget : (getOrCreate (pidsGet s v12 k p tx).1 k epoch tx (pidsGet s v12 k p tx).2).2 = some pr)
     (hfence : ¬ (pr.inTx = true ∧ tx = false)) (hep : epoch = pr.epoch)
     (hseen : (getWin pr p).seen = true) (hwe : epoch = (getWin pr p).epoch)
@@ -147,7 +220,7 @@ theorem retry_gets_original_offset (s : State) (v12 : Bool) (k epoch seq n nbyte
     unfold produce
     simp only [hpd]
     have hk' : ¬ k < 0 := by omega
-    simp only [hk', decide_false, Bool.and_false, Bool.false_eq_true, if_false, hget]
+    simp only [hlead, Bool.not_true, hk', decide_false, Bool.and_false, Bool.false_eq_true, if_false, hget]
     have hf : (pr.inTx && !tx) = false := by
       cases h1 : pr.inTx <;> cases h2 : tx <;> simp_all
     have he1 : ¬ epoch < pr.epoch := by omega
@@ -200,8 +273,8 @@ theorem lso_moves_only_with_hwm (pd : Part) :
     · simp only [deleteRecords, hcond]; exact ⟨rfl, rfl⟩
 
 /-- every partition answered without error reports the partition's current bounds. -/
-theorem fetch_reports_bounds (parts : List Part) (rc : Bool) (mb unk : Int) (hunk : unk ≠ 0) (reqs : List FReq) (nb : Int) (ad : Nat) :
-    ∀ r ∈ fetchLoop parts rc mb unk reqs nb ad, r.code = 0 →
+theorem fetch_reports_bounds (parts : List Part) (rc : Bool) (mb unk : Int) (hunk : unk ≠ 0) (lead : Nat → Bool) (reqs : List FReq) (nb : Int) (ad : Nat) :
+    ∀ r ∈ fetchLoop parts rc mb unk lead reqs nb ad, r.code = 0 →
       ∃ pd, parts[r.p]? = some pd ∧ r.hwm = pd.hwm ∧ r.lso = pd.lso ∧ r.logStart = pd.logStart := by
   induction reqs generalizing nb ad with
   | nil => simp [fetchLoop]
@@ -215,6 +288,11 @@ theorem fetch_reports_bounds (parts : List Part) (rc : Bool) (mb unk : Int) (hun
       · exact absurd hc hunk
       · exact ih _ _ r hr hc
     · rename_i pd hpd
+      split at hr
+      · simp only [List.mem_cons] at hr
+        rcases hr with rfl | hr
+        · simp at hc
+        · exact ih _ _ r hr hc
       split at hr
       all_goals simp only [List.mem_cons] at hr
       · rcases hr with rfl | hr
